@@ -39,7 +39,8 @@ ASSUMPTIONS = [
 ]
 
 ZONES = ["Europe/Berlin", "America/New_York", "Asia/Kolkata", "Asia/Kathmandu", "Australia/Lord_Howe", "Pacific/Chatham",
-         "America/St_Johns", "America/Sao_Paulo", "Pacific/Apia", "Australia/Adelaide", "Asia/Tehran", "UTC"]
+         "America/St_Johns", "America/Sao_Paulo", "Pacific/Apia", "Australia/Adelaide", "Asia/Tehran", "UTC",
+         "Etc/GMT+5", "Etc/GMT-14", "Etc/GMT-3", "Etc/GMT+0"]      # POSIX-style names: Etc/GMT+5 is UTC-05:00
 RANGES = cron.RANGES
 Y0 = clock.to_us(dtm.datetime(2015, 1, 1, tzinfo=clock.UTC))
 Y1 = clock.to_us(dtm.datetime(2035, 12, 31, tzinfo=clock.UTC))
